@@ -124,12 +124,13 @@ def run(ctx: Ctx, tier: str) -> Result:
     idtxt = None
     for r in t.nodes_in(nv, ast.Return):
         idtxt = ctx.expand.expand(r.value, nv)
-    cfield = cache.mangle("__cache")
+    from .common import identity_cache_field
+    cfield = identity_cache_field(ctx)
     if idtxt and len(idtxt) == 1 and idtxt[0] in ("str(len(@self.%s) + 1)" % cfield, "str(1 + len(@self.%s))" % cfield):
         res.ok("C07.INJECT", {"new id": idtxt[0]})
     else:
         res.fail(Finding("C07.INJECT", nv.qname, "<new id>", nv.loc(), "new ids are not derived as size-of-cache + 1: %s" % idtxt))
-    stores = [n for n in t.nodes_in(nv, ast.Assign) if isinstance(n.targets[0], ast.Subscript) and cfield.lstrip("_").split("__")[-1] in norm(n.targets[0].value)]
+    stores = [n for n in t.nodes_in(nv, ast.Assign) if isinstance(n.targets[0], ast.Subscript) and ctx.expand.expand(n.targets[0].value, nv) == ["@self.%s" % cfield]]
     if len(stores) == 1 and norm(stores[0].targets[0].slice) == nv.params[1]:
         res.ok("C07.INJECT", {"cache[identity] = new id": True})
     else:
@@ -144,7 +145,7 @@ def run(ctx: Ctx, tier: str) -> Result:
                 txt = norm(n.func.value)
             elif isinstance(n, ast.Assign) and f.name != "__init__":
                 txt = " ".join(norm(x) for x in n.targets if isinstance(x, ast.Attribute))
-            if txt and ("__cache" in txt) and f.cls is cache:
+            if txt and (("__" + cfield.split("__")[-1]) in txt) and f.cls is cache:
                 shrink.append((f, n))
     if not shrink:
         res.ok("C07.INJECT", {"identity cache is grow-only": True})
